@@ -128,6 +128,20 @@ ORACLES = {"subgroup_G1": o_subgroup, "subgroup_G2": o_subgroup, "clear_G1": o_c
            "consts": o_consts}
 
 
+def torsion_lines(ell=13):
+    """All ell + 1 cyclic subgroups of E'(Fp2)[ell] when the full ell-torsion is rational (it is for 13):
+    two independent points T0, S0 and the representatives S0, T0 + k S0.  A defect tied to an endomorphism
+    eigen-line of the torsion shows on only two of them."""
+    T0 = bc.small_point("G2", ell, 1)
+    for seed in range(2, 40):
+        S0 = bc.small_point("G2", ell, seed)
+        if all(BLS.mul("G2", T0, k) != S0 for k in range(1, ell)):
+            break
+    else:
+        return [T0]
+    return [S0] + [BLS.add("G2", T0, BLS.mul("G2", S0, k)) for k in range(ell)]
+
+
 def s_case(g):
     def attach(t):
         d = dict(t[0])
@@ -145,6 +159,10 @@ def _examples(g):
     for ell in bc.SMALL_ORDERS[g]:
         ex.append({"g": g, "kind": f"small_order_{ell}", "pt": bc.jp(bc.small_point(g, ell, 1)),
                    "scale": one, "inf_rep": 0})
+    if g == "G2":
+        for i, T in enumerate(torsion_lines(13)):
+            ex.append({"g": g, "kind": "small_order_13", "pt": bc.jp(BLS.mul("G2", T, 1 + i % 12)),
+                       "scale": one if i % 2 else [3, 5], "inf_rep": 0, "line": i})
     return ex
 
 
